@@ -245,9 +245,10 @@ def SubOK (A : K.Csr α) (Sj Sp : Array Nat) : Prop :=
   ∀ d < Sp.size - 1, ∀ c < K.rdN Sp (d + 1) - K.rdN Sp d, K.rdN Sj (K.rdN Sp d + c) < A.n
 instance (A : K.Csr α) (Sj Sp : Array Nat) : Decidable (SubOK A Sj Sp) := by unfold SubOK; infer_instance
 
-/-- **the recorded call is a call for the level matrix `A`**: the matrix copy it holds is `A` entry by entry (for the point
-smoothers of a BSR level: both as block arrays and as the point rows the kernel traverses), indices are in range, the options
-are ones the relaxation function accepts, inverse blocks are inverses, the listed C / F block rows exist -/
+/-- **the recorded call is a call for the level matrix `A`**: the matrix copy it holds is `A` entry by entry, indices are in
+range (for the point smoothers of a BSR level: in the point rows the kernel traverses, each of which stores one non-zero
+diagonal entry), the options are ones the relaxation function accepts, inverse blocks are inverses, the listed C / F block
+rows exist -/
 def Sm.OK (A : Mat α) : Sm α → Prop
   | .mat _ => True
   | .poly M cs it => A = csrDense M ∧ ColsOK M ∧ (cs ≠ [] ∨ it = 0)
@@ -260,8 +261,8 @@ def Sm.OK (A : Mat α) : Sm α → Prop
   | .schwarz M _ _ Sj Sp _ _ => A = csrDense M ∧ ColsOK M ∧ SubOK M Sj Sp
   | .gs _ M _ _ => A = csrDense M ∧ ColsOK M ∧ DiagOK M
   | .jac _ M _ => A = csrDense M ∧ ColsOK M ∧ DiagOK M
-  | .bsrgs _ M _ _ => A = bsrDense M ∧ A = csrDense (bsrToCsr M) ∧ ColsOK (bsrToCsr M) ∧ DiagOK (bsrToCsr M)
-  | .bsrjac _ M _ => A = bsrDense M ∧ A = csrDense (bsrToCsr M) ∧ ColsOK (bsrToCsr M) ∧ DiagOK (bsrToCsr M)
+  | .bsrgs _ M _ _ => A = bsrDense M ∧ 0 < M.bs ∧ ColsOK (bsrToCsr M) ∧ DiagOK (bsrToCsr M)
+  | .bsrjac _ M _ => A = bsrDense M ∧ 0 < M.bs ∧ ColsOK (bsrToCsr M) ∧ DiagOK (bsrToCsr M)
   | .cfbjac _ _ M Dinv C F _ _ _ => A = bsrDense M ∧ BColsOK M ∧ 0 < M.bs ∧ Dinv.size = M.nb * (M.bs * M.bs) ∧
       LeftInvOK M Dinv ∧ (∀ i ∈ C, i < M.nb) ∧ (∀ i ∈ F, i < M.nb)
 
